@@ -262,6 +262,18 @@ func (s *Sim) MergeNflog(b []byte, recs []Rec) error {
 	return s.Nflog.Merge(b)
 }
 
+// MergeNflogThen is MergeNflog followed, still under the same lock, by a look at the log (unrecorded).
+func (s *Sim) MergeNflogThen(b []byte, recs []Rec, after func(l *nflog.Log)) error {
+	s.NfMtx.Lock()
+	defer s.NfMtx.Unlock()
+	for _, r := range recs {
+		s.add(r)
+	}
+	err := s.Nflog.Merge(b)
+	after(s.Nflog)
+	return err
+}
+
 // ---- recording stage in front of the pipeline ----
 
 type recStage struct {
